@@ -10,7 +10,7 @@ ASSUMPTIONS = ['audio statements (-80 dB residual, no discontinuity at ratio cha
                'stage switches are encoded for stages -1 <-> 0 <-> 1 (those above repeat the 0 <-> 1 case with other FIFO contents); slew length constant per obligation and |target - step| < 2^20 in the quick tier (symbolic lengths / full ranges gave no verdict on any back end)']
 
 def obligations(tier):
-    obls = [vr_obl(1), vr_obl(2)]
+    obls = [vr_obl(1), vr_obl(2), vr_obl(1, fade=2), vr_obl(1, fade=-2), vr_obl(2, fade=1), vr_obl(2, fade=-1)]      # plain and cross-fade kernels
     for sl in ('1', '7', '1000', '2147483647u') if tier == 'quick' else ('1', '2', '3', '7', '64', '441', '1000', '48000', '1048576', '2147483647u'):
         obls.append(vr_obl(0, sl))
     if tier == 'thorough':
